@@ -347,3 +347,54 @@ def build(sm, resolver=None):
     if resolver is not None:
         schema.default_resolver = resolver
     return schema
+
+
+# -- W: the wrapper matrix for variable usages (C06) ----------------------------------------------
+WRAPPERS = ["T", "T!", "[T]", "[T]!", "[T!]", "[T!]!", "[[T]]", "[[T!]!]"]
+W_BASES = {"scalar": "Int", "enum": "Color", "input": "Pt"}
+W_SAMPLE = {"Int": "7", "Color": "RED", "Pt": "{x: 1}"}
+
+
+def w_type(wrapper, base):
+    return wrapper.replace("T", base)
+
+
+def w_literal(wrapper, base):
+    """a literal of type wrapper(base)"""
+    t = parse_type(w_type(wrapper, base))
+    depth = 0
+    while t[0] != "named":
+        if t[0] == "list":
+            depth += 1
+        t = t[1]
+    return "[" * depth + W_SAMPLE[base] + "]" * depth
+
+
+def _schema_w():
+    types = {}
+    qfields = {}
+    # argument level: one FIELD per (base kind, wrapper, with / without default), argument `x`
+    for kind, base in W_BASES.items():
+        for i, w in enumerate(WRAPPERS):
+            qfields["%s_a%d" % (kind, i)] = _f("String", {"x": _a(w_type(w, base))}, echo=True)
+            qfields["%s_d%d" % (kind, i)] = _f("String", {"x": _a(w_type(w, base), w_literal(w, base))}, echo=True)
+    # input-object-field level (scalar base): one input type per wrapper, without / with a field default
+    for i, w in enumerate(WRAPPERS):
+        types["W%d" % i] = {"kind": "input", "fields": {"f": {"type": w_type(w, "Int"), "default": None}}}
+        types["WD%d" % i] = {"kind": "input", "fields": {"f": {"type": w_type(w, "Int"), "default": w_literal(w, "Int")}}}
+        qfields["obj_a%d" % i] = _f("String", {"x": _a("W%d" % i)}, echo=True)
+        qfields["obj_d%d" % i] = _f("String", {"x": _a("WD%d" % i)}, echo=True)
+    qfields["plain"] = _f("String")
+    types_all = {"Query": {"kind": "object", "interfaces": [], "fields": qfields}}
+    types_all.update(types)
+    types_all["Color"] = {"kind": "enum", "values": {"RED": 1, "GREEN": 2}}
+    types_all["Pt"] = {"kind": "input", "fields": {"x": {"type": "Int", "default": None}}}
+    directives = []
+    for i, w in enumerate(WRAPPERS):
+        directives.append("directive @w%d(x: %s) on FIELD" % (i, w_type(w, "Int")))
+        directives.append("directive @wd%d(x: %s = %s) on FIELD" % (i, w_type(w, "Int"), w_literal(w, "Int")))
+    return {"name": "W", "query": "Query", "mutation": None, "subscription": None, "types": types_all, "directives": directives}
+
+
+SCHEMA_W = _schema_w()
+SCHEMAS["W"] = SCHEMA_W
